@@ -84,3 +84,134 @@ pub fn main(tries_log2: u32) {
     }
     println!("{}", serde_json::to_string_pretty(&out).unwrap());
 }
+
+// ---------------------------------------------------------------------------------------------
+// Rare message digests (development time): for a fixed key and nonce, messages M whose digest
+// e = SM3(ZA || M) falls into a window of relative size 2^-32 that decides a carry or a range:
+//   "e-plus-x1-wraps": e + x1 lies in [n, 2^256)  (the reduction r = (e + x1) mod n subtracts n
+//                      although no 2^256 carry occurred: a 2^-32 corner of the modular addition);
+//   "s-below-2^224":   the signature has s < 2^256 - n, so that s + n still fits 32 bytes and the
+//                      tampered (r, s + n) can be delivered at all (only the range check on s
+//                      refuses it: [s + n]G = [s]G and t is taken mod n).
+// With d = 1 the second condition is a window on r: s = (k - r)/2 mod n. About 2^32 one-block
+// SM3 computations per hit; a few minutes on 16 cores. Every hit is re-checked with the reference
+// signer before it is printed.
+pub fn rare_e(want_each: usize) {
+    use crate::refmodel::sm3::Sm3;
+    use std::sync::atomic::{AtomicBool, AtomicUsize, Ordering};
+    let (n, x1, k, za) = rsm2::with_curve(|c| {
+        let d = BigUint::from(1u32);
+        let pk = c.mul_g(&d);
+        let k = rsm2::hx("6CB28D99385C175C94F94E934817663FC176D925DD72B727260DBAAE1FB2F96F");
+        let x1 = c.mul_g(&k).unwrap().0;
+        let za = rsm2::za(c, b"1234567812345678", &pk).unwrap();
+        (c.n.clone(), x1, k, za)
+    });
+    let limbs = |v: &BigUint| -> [u64; 4] {
+        let b = rsm2::be32(v);
+        let mut o = [0u64; 4];
+        for i in 0..4 {
+            o[i] = u64::from_be_bytes(b[8 * i..8 * i + 8].try_into().unwrap());
+        }
+        o // big-endian limb order: o[0] is the most significant
+    };
+    let (nl, xl, kl) = (limbs(&n), limbs(&x1), limbs(&k));
+    let add = |a: &[u64; 4], b: &[u64; 4]| -> ([u64; 4], bool) {
+        let mut o = [0u64; 4];
+        let mut c = false;
+        for i in (0..4).rev() {
+            let (s1, c1) = a[i].overflowing_add(b[i]);
+            let (s2, c2) = s1.overflowing_add(c as u64);
+            o[i] = s2;
+            c = c1 || c2;
+        }
+        (o, c)
+    };
+    let sub = |a: &[u64; 4], b: &[u64; 4]| -> ([u64; 4], bool) {
+        let mut o = [0u64; 4];
+        let mut br = false;
+        for i in (0..4).rev() {
+            let (s1, b1) = a[i].overflowing_sub(b[i]);
+            let (s2, b2) = s1.overflowing_sub(br as u64);
+            o[i] = s2;
+            br = b1 || b2;
+        }
+        (o, br)
+    };
+    let ge = |a: &[u64; 4], b: &[u64; 4]| a >= b;
+    let mut base = Sm3::new();
+    base.update(&za);
+    let found_a = AtomicUsize::new(0);
+    let found_b = AtomicUsize::new(0);
+    let stop = AtomicBool::new(false);
+    let out = Mutex::new(Vec::<serde_json::Value>::new());
+    let chunk = 1u64 << 24;
+    (0..4096u64).into_par_iter().for_each(|ci| {
+        if stop.load(Ordering::Relaxed) {
+            return;
+        }
+        for ctr in ci * chunk..(ci + 1) * chunk {
+            let mut h = base.clone();
+            let msg = ctr.to_be_bytes();
+            h.update(&msg);
+            let e = h.finish();
+            let mut el = [0u64; 4];
+            for i in 0..4 {
+                el[i] = u64::from_be_bytes(e[8 * i..8 * i + 8].try_into().unwrap());
+            }
+            let (sum, carry) = add(&el, &xl);
+            let class_a = !carry && ge(&sum, &nl);
+            // r = (e + x1) mod n  (e < 2^256, x1 < n: at most two subtractions)
+            let mut r = sum;
+            let mut cy = carry;
+            for _ in 0..2 {
+                if cy || ge(&r, &nl) {
+                    let (t, b) = sub(&r, &nl);
+                    r = t;
+                    if b {
+                        cy = false;
+                    }
+                }
+            }
+            // (k - r) mod n
+            let (mut dkr, br) = sub(&kl, &r);
+            if br {
+                dkr = add(&dkr, &nl).0;
+            }
+            let class_b = dkr[0] < (1u64 << 33) && dkr[3] & 1 == 0;
+            if !(class_a || class_b) {
+                continue;
+            }
+            // re-check with the reference signer
+            let sig = rsm2::with_curve(|c| rsm2::sign_with_k(c, &BigUint::from(1u32), b"1234567812345678", &msg, &k));
+            let sig = match sig {
+                Some(s) => s,
+                None => continue,
+            };
+            let s = BigUint::from_bytes_be(&sig[32..]);
+            let two256 = BigUint::from(1u32) << 256u32;
+            let e_big = BigUint::from_bytes_be(&e);
+            let wraps = &e_big + &x1 >= n && &e_big + &x1 < two256;
+            let small_s = &s + &n < two256;
+            let mut cls = vec![];
+            if wraps && found_a.load(Ordering::Relaxed) < want_each {
+                found_a.fetch_add(1, Ordering::Relaxed);
+                cls.push("e-plus-x1-wraps");
+            }
+            if small_s && found_b.load(Ordering::Relaxed) < want_each {
+                found_b.fetch_add(1, Ordering::Relaxed);
+                cls.push("s-below-2^224");
+            }
+            for c in cls {
+                let j = json!({"class": c, "d": "0000000000000000000000000000000000000000000000000000000000000001", "k": hex::encode(rsm2::be32(&k)), "id": "1234567812345678", "msg": hex::encode(msg), "sig": hex::encode(sig)});
+                println!("{j}");
+                out.lock().unwrap().push(j);
+            }
+            if found_a.load(Ordering::Relaxed) >= want_each && found_b.load(Ordering::Relaxed) >= want_each {
+                stop.store(true, Ordering::Relaxed);
+                return;
+            }
+        }
+    });
+    eprintln!("found {} + {}", found_a.load(Ordering::Relaxed), found_b.load(Ordering::Relaxed));
+}
